@@ -48,14 +48,16 @@ Menu == <<
   <<"expressions", "(", "$A", ")">>,
   <<"expressions", "(", "$A", ",", "$B", ")", "#c">>,
   <<"component", "(", "$B", ")">>,
-  <<"#c">> >>
+  <<"#c">>,
+  <<"parameters", "(", "$A", ",", "p", "=", "3", ")">> >>
 Alphabet == {"states", "parameters", "expressions", "(", ")", ",", "=", "$A", "x", "u", "1", "#c", "+", "ScalarParam", "unit", "dx_dt"}
 
 \* complete, loadable models (every mutation of these is explored: the near misses of a valid file)
 Seeds == { <<1, 5, 7, 8, 10>>,                 \* one anonymous component
            <<2, 4, 6, 11, 7, 13, 9>>,          \* two named components, a parameter read across, comments
            <<3, 5, 12, 9>>,                    \* a state that belongs to two components, a header with two names
-           <<10, 14, 7, 9, 1, 5>> }            \* assignments first (use before definition), declarations last
+           <<10, 14, 7, 9, 1, 5>>,             \* assignments first (use before definition), declarations last
+           <<2, 15, 5, 11, 7>> }               \* one parameter declared identically in the blocks of two components
 
 VARIABLES items, pc, mut
 vars == <<items, pc, mut>>
